@@ -50,6 +50,13 @@ type concOp struct {
 // sharedParseOpts is built before any task exists and only read afterwards.
 var sharedParseOpts []participle.ParseOption
 
+// scribble overwrites a buffer the caller owns, after the call it was handed to has returned.
+func scribble(b []byte) {
+	for i := range b {
+		b[i] = '#'
+	}
+}
+
 const failedOrError = "error (allowed: the reader failed)"
 
 // mailbox passes errors between tasks the way a real program would: under a mutex the race
@@ -68,7 +75,13 @@ func execParserOp(op *concOp, p PH, w *world, mb *mailbox, reference bool) strin
 	case "ParseString":
 		res = call(func() (interface{}, error) { return p.ParseString(name, op.input) })
 	case "ParseBytes":
-		res = call(func() (interface{}, error) { return p.ParseBytes(name, []byte(op.input)) })
+		// the buffer is the caller's: in the concurrent history it is refilled as soon as the call
+		// has returned (the isolated reference call's buffer is left alone)
+		buf := []byte(op.input)
+		res = call(func() (interface{}, error) { return p.ParseBytes(name, buf) })
+		if !reference {
+			scribble(buf)
+		}
 	case "Parse":
 		res = call(func() (interface{}, error) {
 			if reference || op.rd == nil {
@@ -141,7 +154,7 @@ func exprProduction(p PH, input string) (interface{}, error) {
 	return sub.ParseString("prod.txt", input)
 }
 
-func execDefOp(op *concOp, def lexer.Definition) string {
+func execDefOp(op *concOp, def lexer.Definition, reference bool) string {
 	const name = "def.txt"
 	consume := func(mk func() (lexer.Lexer, error)) callResult {
 		return lexCall(func() ([]lexer.Token, error) {
@@ -153,6 +166,7 @@ func execDefOp(op *concOp, def lexer.Definition) string {
 		})
 	}
 	var res callResult
+	var lexBuf []byte
 	switch op.kind {
 	case "Def.Lex":
 		res = consume(func() (lexer.Lexer, error) { return def.Lex(name, strings.NewReader(op.input)) })
@@ -166,10 +180,14 @@ func execDefOp(op *concOp, def lexer.Definition) string {
 	case "Def.LexBytes":
 		res = consume(func() (lexer.Lexer, error) {
 			if bd, ok := def.(lexer.BytesDefinition); ok {
-				return bd.LexBytes(name, []byte(op.input))
+				lexBuf = []byte(op.input)
+				return bd.LexBytes(name, lexBuf)
 			}
 			return def.Lex(name, strings.NewReader(op.input))
 		})
+		if !reference {
+			scribble(lexBuf)
+		}
 	case "Def.LexFailingReader":
 		res = consume(func() (lexer.Lexer, error) {
 			if op.rd != nil {
@@ -528,7 +546,7 @@ func runConcurrency(rc *RunCtx) *Violation {
 			if reference && !sd.gen {
 				def = sd.ld.build()
 			}
-			return execDefOp(op, def)
+			return execDefOp(op, def, reference)
 		default:
 			sp := parsers[op.pi]
 			p := sp.p
